@@ -318,6 +318,42 @@ def discover(E, body_runner, st, fr, names, has_yield=True):
     return keys
 
 
+def do_cut(E, st, fr, spec, k):
+    """Summarise-and-forget: prove the cut facts and the frame, then continue from an arbitrary state that
+    satisfies them (sound: the continuation is verified for every such state)."""
+    from .engine import fresh
+    from .spec import split_tags
+    from . import verify
+    for i, c in enumerate(spec.cut):
+        tags, body = split_tags(c)
+        E.oblige(fr, st, "cut", f"loop{k}:{i}", E.sev_bool(c, st, fr), info=body, tags=tags)
+    base = fr.old if fr.old is not None else None
+    touched = [key for key, arr in st.heap.items() if base is None or (arr is not E.h(base, key) and not arr.eq(E.h(base, key)))]
+    E.loop_frame_check(st, fr, touched, k, "frame-cut")
+    entry = st.copy()
+    for key in touched:
+        old = E.h(st, key)
+        new = fresh("cut_" + str(key[0]), old.sort())
+        st.heap[key] = new
+        st.note_write(key, None)
+        E.loop_frame_assumption(st, fr, key, new, None)
+    if ("alloc",) in touched:
+        r = fresh("r", ty.RefSort)
+        st.assume(z3.ForAll([r], z3.Implies(z3.Select(E.alloc(entry), r), z3.Select(E.alloc(st), r)),
+                            patterns=[z3.Select(E.alloc(st), r)]))
+        if base is not None:
+            st.assume(z3.ForAll([r], z3.Implies(z3.Select(E.alloc(base), r), z3.Select(E.alloc(st), r)),
+                                patterns=[z3.Select(E.alloc(base), r)]))
+    E.wf_keys(st, touched)
+    # locals holding references keep pointing at allocated objects
+    for n, v in st.locals.items():
+        if getattr(v, "z", None) is not None and v.t.kind in ("list", "dict", "set", "ref") :
+            st.assume(z3.Or(v.z == ty.null, z3.Select(E.alloc(st), v.z)))
+    prune_pc(E, st, fr)
+    for c in spec.cut:
+        st.assume(E.sev_bool(c, st, fr))
+
+
 def exec_for(E, s: ast.For, st, fr):
     from .engine import V, Outcome, CheckerError, fresh
     if s.orelse:
@@ -328,6 +364,8 @@ def exec_for(E, s: ast.For, st, fr):
         if hdr != spec.header:
             from .engine import AttachError
             raise AttachError(f"{fr.qname}: loop {k} header is `{hdr}`, contract was written for `{spec.header}`")
+    if spec is not None and spec.cut is not None and fr.verify:
+        do_cut(E, st, fr, spec, k)
     dom = iter_domain(E, s.iter, st, fr)
     names = assigned_names(s.body) | assigned_names([ast.Expr(value=s.target)] if False else []) | {n.id for n in ast.walk(s.target) if isinstance(n, ast.Name)}
     entry = st.copy()
